@@ -210,7 +210,7 @@ func GenSProgram(t *rapid.T, cfg SGenCfg) SProgram {
 				}
 			}
 			p.Ops = append(p.Ops, SOp{K: "reconnect", Node: a}, SOp{K: "boot", Node: a}, SOp{K: "read", Off: off, Len: 1, Reps: 2})
-		case "pingfail", "nodedrop", "reconnect", "boot":
+		case "pingfail", "nodedrop", "reconnect", "boot", "statsrace":
 			p.Ops = append(p.Ops, SOp{K: k, Node: rapid.IntRange(0, nodes-1).Draw(t, "node")})
 		case "snapshot":
 			o := SOp{K: "snapshot", Name: fmt.Sprintf("v%d", len(p.Ops))}
